@@ -203,6 +203,15 @@ func (s *serfQueries) keyListResponseWithCorrectSize(q *Query, resp *nodeKeyResp
 	return nil, messageQueryResponse{}, fmt.Errorf("Failed to truncate response so that it fits into message")
 }
 
+// decodeKeyRequest decodes the payload of a key query: a type byte followed by
+// the encoded request. An empty payload is an error, not a crash.
+func decodeKeyRequest(payload []byte, req *keyRequest) error {
+	if len(payload) < 1 {
+		return fmt.Errorf("empty key request")
+	}
+	return decodeMessage(payload[1:], req)
+}
+
 // sendKeyResponse handles responding to key-related queries.
 func (s *serfQueries) sendKeyResponse(q *Query, resp *nodeKeyResponse) {
 	switch q.Name {
@@ -239,7 +248,7 @@ func (s *serfQueries) handleInstallKey(q *Query) {
 	keyring := s.serf.config.MemberlistConfig.Keyring
 	req := keyRequest{}
 
-	err := decodeMessage(q.Payload[1:], &req)
+	err := decodeKeyRequest(q.Payload, &req)
 	if err != nil {
 		s.logger.Printf("[ERR] serf: Failed to decode key request: %v", err)
 		goto SEND
@@ -281,7 +290,7 @@ func (s *serfQueries) handleUseKey(q *Query) {
 	keyring := s.serf.config.MemberlistConfig.Keyring
 	req := keyRequest{}
 
-	err := decodeMessage(q.Payload[1:], &req)
+	err := decodeKeyRequest(q.Payload, &req)
 	if err != nil {
 		s.logger.Printf("[ERR] serf: Failed to decode key request: %v", err)
 		goto SEND
@@ -321,7 +330,7 @@ func (s *serfQueries) handleRemoveKey(q *Query) {
 	keyring := s.serf.config.MemberlistConfig.Keyring
 	req := keyRequest{}
 
-	err := decodeMessage(q.Payload[1:], &req)
+	err := decodeKeyRequest(q.Payload, &req)
 	if err != nil {
 		s.logger.Printf("[ERR] serf: Failed to decode key request: %v", err)
 		goto SEND
